@@ -108,7 +108,7 @@ Definition no_move_score (g : game) (offset real : Z) : Z :=
 
 (* ---- quiescence_search ------------------------------------------------------------------------ *)
 
-Definition QFUEL : nat := 64.   (* every tactical move lowers men + pawns, which is at most 48 *)
+Definition QFUEL : nat := 200.  (* every tactical move lowers (occupied squares + pawns) <= 128: Proofs/BoundsQ.v *)
 
 Fixpoint quiescence (fuel : nat) (g : game) (alpha beta real : Z) : option Z :=
   match fuel with
